@@ -134,9 +134,24 @@ def async_chain_programs(L, stats=None):
             for a, b in zip(chain, chain[1:]):
                 stats["pairs"].add((a.op, b.op))
             rb = "let x = futures::executor::block_on(async move { use futures::{FutureExt, TryFutureExt, StreamExt, TryStreamExt}; %s.await });\nformat!(\"{:?}\", x)" % ref
-            for mac in ("join_async", "try_join_async"):
-                if mac.startswith("try") and fk[1][0] != "Res":
-                    continue
-                mb = "let x = futures::executor::block_on(%s! { %s });\nformat!(\"{:?}\", x)" % (mac, dsl)
-                progs.append(Prog("%s/%s/%s" % (mac, K.short(start), "-".join(labels) or "id"), rb, mb, rows, "Full", meta={"macro": mac, "dsl": "%s! { %s }" % (mac, dsl), "ref": ref}))
+            variants = [("", dsl, rb)]
+            # `~` in front of the last operator when the value before it is a (non-nested) future: the step is awaited and the
+            # next step continues from a future of that value — `~-> f` receives a future like every other `->`
+            if len(chain) >= 1:
+                before = chain[-2].out if len(chain) >= 2 else start
+                if before[0] == "Fut" and before[1][0] not in ("Fut",) and K.nameable(before[1]):
+                    dsl_pre, ref_pre = chain_texts(init, chain[:-1], is_async=True)
+                    last = chain[-1]
+                    dsl_d = dsl_pre + " ~" + K.dsl_apply(last.op, last.operands).lstrip()
+                    ref_d = K.ref_apply("futures::future::ready(__s0)", last.op, last.operands, True)
+                    rb_d = "let x = futures::executor::block_on(async move { use futures::{FutureExt, TryFutureExt, StreamExt, TryStreamExt}; let __s0 = %s.await; %s.await });\nformat!(\"{:?}\", x)" % (ref_pre, ref_d)
+                    variants.append(("~", dsl_d, rb_d))
+            for vn, dsl_v, rb_v in variants:
+                for mac in ("join_async", "try_join_async"):
+                    if mac.startswith("try") and fk[1][0] != "Res":
+                        continue
+                    if vn == "~" and mac.startswith("try"):
+                        continue  # (a try macro aborts after a failing step: the step semantics of try macros are C05/C06's)
+                    mb = "let x = futures::executor::block_on(%s! { %s });\nformat!(\"{:?}\", x)" % (mac, dsl_v)
+                    progs.append(Prog("%s/%s/%s%s" % (mac, K.short(start), "-".join(labels) or "id", vn), rb_v, mb, rows, "Full", meta={"macro": mac, "dsl": "%s! { %s }" % (mac, dsl_v), "ref": rb_v}))
     return progs, stats
